@@ -15,7 +15,7 @@ func init() {
 	runner.Register(&runner.Check{
 		ID:    "C08",
 		Level: "exploration",
-		Rule: "program = 3 (quick) / 4 (thorough) rule slots, each (phase in {1,2,3,5}) x (action in {pass, skip:1, skip:2, skipAfter:M1, skipAfter:ABSENT, allow, allow:request, allow:phase, deny}) x (chain of 1 or 2 links), " +
+		Rule: "program = 3 (quick) / 4 (thorough) rule slots, each (phase in {1,2,3,5}) x (action in {pass, skip:1, skip:2, skipAfter:M1, skipAfter:ABSENT, allow, allow:request, allow:phase, deny, deny+skip:1, deny+skipAfter:ABSENT}) x (chain of 1 or 2 links), " +
 			"plus marker M1 at every position or absent, engine On / DetectionOnly; slot i (and each chain link) matches iff its own request bit is set; requests = all bit vectors; " +
 			"every (program, request) is driven through all five phases on the real engine and compared with a flow interpreter restating the property: exact list of fired rules and the interruption; " +
 			"distinct_nontrivial = distinct (program, request) in which at least one flow action (skip/skipAfter/allow/deny) was executed by the model",
@@ -62,7 +62,7 @@ func (p program) conf() string {
 			sb.WriteString("SecMarker M1\n")
 		}
 		acts := fmt.Sprintf("id:%d,phase:%d,log,%s", i+1, s.Phase, s.Action)
-		if s.Action == "deny" {
+		if strings.HasPrefix(s.Action, "deny") {
 			acts += ",status:403"
 		}
 		if s.Chain > 1 {
@@ -157,36 +157,38 @@ func model(p program, bits []bool) (fired []int, itr int, specified bool, flow b
 				continue
 			}
 			fired = append(fired, i+1)
-			switch {
-			case s.Action == "pass":
-			case strings.HasPrefix(s.Action, "skip:"):
-				flow = true
-				fmt.Sscanf(s.Action, "skip:%d", &skip)
-			case strings.HasPrefix(s.Action, "skipAfter:"):
-				flow = true
-				skipAfter = strings.TrimPrefix(s.Action, "skipAfter:")
-			case s.Action == "allow":
-				flow = true
-				if on {
-					allow = "all"
-				}
-			case s.Action == "allow:request":
-				flow = true
-				if phase >= 3 {
-					specified = false
-				}
-				if on {
-					allow = "request"
-				}
-			case s.Action == "allow:phase":
-				flow = true
-				if on {
-					allow = "phase"
-				}
-			case s.Action == "deny":
-				flow = true
-				if on {
-					itr = i + 1
+			for _, act := range strings.Split(s.Action, ",") {
+				switch {
+				case act == "pass":
+				case strings.HasPrefix(act, "skip:"):
+					flow = true
+					fmt.Sscanf(act, "skip:%d", &skip)
+				case strings.HasPrefix(act, "skipAfter:"):
+					flow = true
+					skipAfter = strings.TrimPrefix(act, "skipAfter:")
+				case act == "allow":
+					flow = true
+					if on {
+						allow = "all"
+					}
+				case act == "allow:request":
+					flow = true
+					if phase >= 3 {
+						specified = false
+					}
+					if on {
+						allow = "request"
+					}
+				case act == "allow:phase":
+					flow = true
+					if on {
+						allow = "phase"
+					}
+				case act == "deny":
+					flow = true
+					if on {
+						itr = i + 1
+					}
 				}
 			}
 		}
@@ -205,7 +207,7 @@ func model(p program, bits []bool) (fired []int, itr int, specified bool, flow b
 	return
 }
 
-var actionsQuick = []string{"pass", "skip:1", "skip:2", "skipAfter:M1", "skipAfter:ABSENT", "allow", "allow:request", "allow:phase", "deny"}
+var actionsQuick = []string{"pass", "skip:1", "skip:2", "skipAfter:M1", "skipAfter:ABSENT", "allow", "allow:request", "allow:phase", "deny", "deny,skip:1", "deny,skipAfter:ABSENT"}
 
 func programs(thorough bool, emit func(p program)) {
 	n := 3
@@ -236,6 +238,9 @@ func programs(thorough bool, emit func(p program)) {
 			// inversion (a later-phase rule placed first), which is what skip's
 			// "same phase only" clause is about
 			for _, a := range actions {
+				if !thorough && strings.Contains(a, ",") && len(cur) > 0 {
+					continue // quick: a combined disruptive+flow action only on the first rule
+				}
 				rec(append(cur, slot{Phase: ph, Action: a, Chain: 1}), chained)
 				if !chained && (a == "deny" || a == "skip:1" || a == "allow" || a == "skipAfter:M1") {
 					rec(append(cur, slot{Phase: ph, Action: a, Chain: 2}), true)
